@@ -568,6 +568,26 @@ def mut_nerrs(evs):
     return evs
 
 
+def mut_entry_names_other(evs):
+    # an entry of the joined error names no message of the call
+    i, m = _failed_msg(evs)
+    if i < 0 or evs[i].get('top') or any(x['v'] in ('RSET', 'QUIT') for x in evs[0]['env']):
+        return None
+    if any(evs[0]['cfg'].get('enc8', [])) or not evs[i].get('entries'):
+        return None
+    evs[i]['entries'][0] = 0
+    return evs
+
+
+def mut_msg_temp(evs):
+    # Msg.SendErrorIsTemp disagrees with the reply class
+    i, m = _failed_msg(evs)
+    if i < 0:
+        return None
+    evs[i]['msgs'][m]['temp2'] = not evs[i]['msgs'][m]['temp2']
+    return evs
+
+
 def mut_no_close(evs):
     i = _find(evs, lambda e: e['ev'] == 'ret' and e['op'] in ('Dial', 'DialAndSend') and e['err'])
     j = _find(evs, lambda e: e['ev'] == 'cclose')
@@ -682,7 +702,9 @@ SELFTESTS = {
             ('wrong enhanced code', mut_wrong_esc, 'C20_EnhancedCode'), ('wrong step', mut_wrong_step, 'C20_Step'),
             ('wrong recipients', mut_wrong_rcpts, 'C20_Recipients'), ('error hidden', mut_hide_error, 'C20_ErrorReported'),
             ('spurious error', mut_spurious_error, 'C20_NoErrorWhenUnaffected'),
-            ('joined error count', mut_nerrs, 'C20_OneEntryPerFailedMessage')],
+            ('joined error count', mut_nerrs, 'C20_OneEntryPerFailedMessage'),
+            ('joined entry names no message', mut_entry_names_other, 'C20_EntriesNameFailedMessages'),
+            ('Msg.SendErrorIsTemp wrong', mut_msg_temp, 'C20_Temporary')],
     'C17': [('late return', lambda evs: _mut_ret(evs, 'elapsed', 'late'), 'C17_Bounded'),
             ('success despite stall', lambda evs: _mut_stall_ok(evs), 'C17_ErrorOnStall')],
     'C16': [('secret in a log record', lambda evs: _mut_log(evs, 'leak', True, False), 'C16_NoSecretInLog'),
